@@ -11,7 +11,7 @@ VERIFICATION_MSGS = (
     'postcondition not satisfied', 'precondition not satisfied', 'invariant not satisfied',
     'assertion failed', 'decreases not satisfied', 'possible arithmetic', 'possible division by zero',
     'loop invariant', 'unreachable', 'possible bit shift', 'failed this',
-    'cannot show invariant', 'unable to prove post-condition of closure', 'unable to prove', 'index out of bounds', 'could not prove', 'termination',
+    'cannot show invariant', 'unable to prove post-condition of closure', 'unable to prove', 'fails to satisfy', 'index out of bounds', 'could not prove', 'termination',
 )
 UNDECIDED_MSGS = ('Resource limit', 'rlimit', 'timed out', 'resource limit')
 
